@@ -15,6 +15,7 @@ type GenOpts struct {
 	FixedGroup bool // groups identical on both sides, no membership edits (C14)
 	MaxLines   int
 	V6         bool // allow IPv6 entries/routes in the (v4) files
+	VPN        bool // add the VPN part (crypto maps, tunnel-groups, group-policies, users, ...)
 }
 
 var (
@@ -231,6 +232,9 @@ func GenTarget(t *rapid.T, o GenOpts, label string) *State {
 		nr = 0
 	}
 	genRoutes(t, s, nr, label+"r")
+	if o.VPN {
+		genVPN(t, s, o, label+"vpn")
+	}
 	return s
 }
 
@@ -285,6 +289,7 @@ func (s *State) renameACL(old, new string) {
 			s.Bind[k] = new
 		}
 	}
+	s.Gen.renameRef(kACL, old, new)
 }
 
 func hasDup(acl []*ACE, a *ACE) bool {
@@ -578,6 +583,9 @@ func GenPair(t *rapid.T, o GenOpts) *Pair {
 				p.A.Intfs = append(p.A.Intfs, &c)
 			}
 		}
+		if o.VPN {
+			p.A.provideManual(p.B)
+		}
 	} else {
 		p.Mode = "derived"
 		p.A = p.B.Clone()
@@ -589,12 +597,23 @@ func GenPair(t *rapid.T, o GenOpts) *Pair {
 			for _, n := range sortedKeys(p.A.ACLs) {
 				p.A.renameACL(n, n+"-DRC-0")
 			}
+			if o.VPN {
+				p.A.Gen.tagAll()
+			}
 		}
 	}
 	n := rapid.IntRange(0, 6).Draw(t, "nOps")
 	for i := 0; i < n; i++ {
-		op := p.A.mutate(t, o, fmt.Sprintf("op%d", i))
+		var op string
+		if o.VPN && rapid.Bool().Draw(t, fmt.Sprintf("vpnOp%d", i)) {
+			op = p.A.mutateVPN(t, o, fmt.Sprintf("op%d", i))
+		} else {
+			op = p.A.mutate(t, o, fmt.Sprintf("op%d", i))
+		}
 		p.Ops = append(p.Ops, op)
+	}
+	if o.VPN {
+		p.A.repairVPN()
 	}
 	// Remove empty ACL bindings that mutate may have produced.
 	for k, v := range p.A.Bind {
@@ -604,6 +623,9 @@ func GenPair(t *rapid.T, o GenOpts) *Pair {
 	}
 	if o.Ties {
 		p.A.addTies(t)
+		if o.VPN {
+			p.A.addVPNTies(t)
+		}
 	}
 	if o.Decorate {
 		p.Ops = append(p.Ops, p.A.decorate(t, p.B)...)
